@@ -165,6 +165,14 @@ def _early(run, rid, rel, fn, env, hook, tparam, value_at, what, tau_poly=None):
                 if not ok:
                     run.report(rid, rel, ifnode.body[0], "the shortcut for tau == %s returns %s but the %s polynomial there is %s" % (
                         c, got.canon(), what, want.canon()[:120]))
+        elif isinstance(t, ast.Compare) and len(t.ops) == 1 and isinstance(t.ops[0], (ast.Lt, ast.LtE, ast.Gt, ast.GtE, ast.NotEq)) and \
+                ifnode.body and isinstance(ifnode.body[0], ast.Return):
+            sides = [canon.poly(t.left).cancel(), canon.poly(t.comparators[0]).cancel()]
+            if any(sd == Poly.atom("tau") or (tau_poly is not None and sd == tau_poly) for sd in sides) and any(sd.is_const() for sd in sides):
+                found += 1
+                run.judged(rid, "%s early return under `%s`" % (what, src(t)), ok=False)
+                run.report(rid, rel, ifnode.body[0], "the shortcut `%s` is taken for a whole RANGE of the normalised coordinate (`%s`), where the %s polynomial is not "
+                           "the constant it returns: outside the step (extrapolation) the %s is no longer that of the cubic" % (src(ifnode.body[0]), src(t), what, what))
         for o in ifnode.orelse:
             if isinstance(o, ast.If):
                 visit(o)
